@@ -27,18 +27,30 @@ def relPaths (g : Adj) (fuel : Nat) (x : Nat) : List (List Nat) :=
   ((g x).filter (fun t => t != x)).reverse.flatMap
     (fun t => (extend g fuel [t, x] t).map (t :: ·))
 
-/-- `_Relatable.closure`: breadth-first worklist with a global visited set
-(after the fix: visited by entity).  `none` if fuel runs out (never, see
-`closure_fuel`). -/
-def closureAux (g : Adj) : Nat → List Nat → List Nat → List Nat → Option (List Nat)
-  | _, [], _, acc => some acc.reverse
-  | 0, _ :: _, _, _ => none
-  | fuel+1, x :: q, seen, acc =>
-    if seen.contains x then closureAux g fuel q seen acc
-    else closureAux g fuel (q ++ g x) (x :: seen) (x :: acc)
+/-- Generic worklist walk with a global visited list: the shape shared by
+`_Relatable.closure` (queue: `push q new = q ++ new`) and by the ancestor walk of
+`ic.compute` (stack: `push q new = new.reverse ++ q`).  Returns the visited nodes,
+most recently discovered first; `none` if the fuel runs out (never for the fuel
+used by the callers, see `Lemmas/Walk.lean`). -/
+def walkGen (push : List Nat → List Nat → List Nat) (g : Adj) :
+    Nat → List Nat → List Nat → Option (List Nat)
+  | _, [], seen => some seen
+  | 0, _ :: _, _ => none
+  | fuel+1, x :: q, seen =>
+    if seen.contains x then walkGen push g fuel q seen
+    else walkGen push g fuel (push q (g x)) (x :: seen)
 
-def closure (g : Adj) (fuel : Nat) (x : Nat) : Option (List Nat) :=
-  closureAux g fuel (g x) [] []
+def pushQueue (q new : List Nat) : List Nat := q ++ new
+def pushStack (q new : List Nat) : List Nat := new.reverse ++ q
+
+/-- fuel that always suffices for a graph on `n` nodes and an initial agenda `q0` -/
+def walkFuel (g : Adj) (n : Nat) (q0 : List Nat) : Nat :=
+  q0.length + ((List.range n).map (fun x => 1 + (g x).length)).sum + 1
+
+/-- `_Relatable.closure` (after the fix: visited by entity): entities in the order
+they are yielded. -/
+def closure (g : Adj) (n : Nat) (x : Nat) : Option (List Nat) :=
+  (walkGen pushQueue g (walkFuel g n (g x)) (g x) []).map List.reverse
 
 /-! ### taxonomy.py -/
 
